@@ -82,6 +82,20 @@ def listings(max_entries, kinds, min_entries=0):
     return out
 
 
+SIBLING_DIR_PATHS = (b"a/x", b"a-/x", b"a.b/x", b"a0/x", b"a/b/x", b"a", b"a.b", b"a-")
+
+
+def sibling_dir_listings(max_entries):
+    """Listings whose tree has sibling *directories* named a, a-, a.b, a0 (one name a proper prefix of the other,
+    next byte sorting before or after '/'): the 'directory sorts as name/' rule between two directories."""
+    out = []
+    for ps in subsets(SIBLING_DIR_PATHS, max_entries, 2):
+        if not gt.consistent([(p, 0, b"") for p in ps]):
+            continue
+        out.append(tuple((p, 0o100644, X) for p in ps))
+    return out
+
+
 def show(listing):
     return "{" + ", ".join("%s:%s" % (p.decode(), KIND_NAME.get((m, s), "%o/%s" % (m, s[:6].decode()))) for p, m, s in listing) + "}"
 
@@ -125,6 +139,14 @@ CFGSETS = {
         "none_id": True,
         "patch": "all",
     },
+    "mid2": {  # mid + every two-element path filter (a filter that sorts between a directory and its contents)
+        "plain": CUBE,
+        "filt": [(f, False) for f in F1 + F2],
+        "rd": [("default", False, False), ("default", True, False), ("default", False, True)],
+        "rdfilt": F1,
+        "none_id": True,
+        "patch": "all",
+    },
     "cube": {
         "plain": CUBE,
         "filt": [],
@@ -158,7 +180,7 @@ def families(quick):
     if quick:
         return [
             ("kinds1", 1, ALL8, "full"),  # 65 listings: every kind -> kind transition, file <-> dir
-            ("shapes", 3, ("fX",), "mid"),  # 69 listings: every shape pair, one kind (=> renames everywhere)
+            ("shapes", 3, ("fX",), "mid2"),  # 69 listings: every shape pair, one kind (=> renames everywhere)
             ("two", 2, ("fX", "fY", "lX"), "lean"),  # 241 listings
             ("similar", 2, ("fX", "fZ"), "similar"),  # 113 listings: inexact renames
         ]
@@ -1069,7 +1091,7 @@ def run(ctx):
     if any(m.startswith("dulwich.") for m in sys.modules):
         raise HarnessError("dulwich submodules imported in the parent before the passes were bound")
     nmax = listing_bound(q)
-    Ls = listings(nmax, ALL8)
+    Ls = listings(nmax, ALL8) + sibling_dir_listings(3 if q else 4)
     fams = families(q)
     sizes = {f[0]: len(listings(f[1], f[2])) for f in fams}
     total_pairs = sum(v * v for v in sizes.values())
